@@ -23,6 +23,14 @@ COMP_CODECS = {"dna", "iupac", "mdna", "miupac", "degen"}
 MASK_CODECS = {"mdna", "miupac"}
 
 
+def pick_K(rng, ks):
+    """a K from a storage type's grid, biased to the ends (the k-mer that fills its word exactly, the one
+    just below it, and K = 1): special cases there must not depend on the luck of a uniform draw"""
+    if len(ks) > 3 and rng.random() < 0.35:
+        return rng.choice([ks[-1], ks[-1], ks[-2], ks[0]])
+    return rng.choice(ks)
+
+
 class CodecInfo:
     def __init__(self, name, tab):
         self.name = name
